@@ -53,7 +53,7 @@ G = {
         ['type', 'T', '=', E], ['type', 'T', '[', N('tparams'), ']', '=', E],
     ],
     'rhs': [[E], [E, ',', E], [E, ','], ['*', E, ',', E], ['yield'], ['yield', E], ['yield', 'from', E]],
-    'deltarget': [['t'], ['t', '.', 'm'], ['t', '[', E, ']'], ['t', ',', 'u'], ['(', 't', ',', 'u', ')'], ['[', 't', ']'], ['(', 't', ')'], ['t', ',']],
+    'deltarget': [['t'], ['t', '.', 'm'], ['t', '[', E, ']'], ['t', ',', 'u'], ['(', 't', ',', 'u', ')'], ['[', 't', ']'], ['(', 't', ')'], ['t', ','], ['(', ')'], ['[', ']']],
     'dotted': [['m'], ['m', '.', 'n'], ['m', '.', 'n', '.', 'o']],
     'fromloc': [['m'], ['.', 'm'], ['.'], ['..'], ['...'], ['....', 'm'], ['m', '.', 'n'], ['..', 'm', '.', 'n']],
     'impnames': [['x'], ['x', 'as', 'y'], ['x', ',', 'y'], ['(', 'x', ')'], ['(', 'x', ',', ')'], ['(', 'x', 'as', 'y', ',', 'z', ')'], ['*']],
